@@ -55,4 +55,28 @@ def replyOK (svc : List Variant) (P : PShape) (E : List Variant) (ms : Members) 
             | none => true | some .null => true | some (.bool _) => true | some _ => false)
         then v == .success else true
   soundness && completeness
+
+/-- C05 oracle, completeness half, for one call object with members `ms` decoded as the method enum `M`:
+    a frame is a *well-formed call* when it has exactly one `method` member naming a variant of `M`, every
+    flag member is a JSON boolean, and its `parameters` are right for that variant — for a variant with fields
+    exactly one object holding them; for a field-less variant absent or `null` (or, for the variants that
+    must accept every spelling of "no parameters", an empty object). Such a frame must be accepted whatever
+    the order of its members. (Frames with a duplicated `method` / `parameters` member are not judged.) -/
+def callMustDecode (M : List Variant) (ms : Members) : Bool :=
+  let flagOK (k : String) : Bool := (ms.filter (·.1 = k)).all fun p => match p.2 with | .bool _ => true | _ => false
+  if count "method" ms != 1 || count "parameters" ms > 1 then false else
+  if !(flagOK "oneway" && flagOK "more" && flagOK "upgrade") then false else
+  match lookup "method" ms with
+  | some (.str n _) =>
+    match findVariant M n with
+    | some (_, v) =>
+      match v.fields, lookup "parameters" ms with
+      | none, none => true
+      | none, some .null => true
+      | none, some (.obj []) => v.lenient
+      | none, some _ => false
+      | some fs, some (.obj cm) => (decodeFields fs cm).isSome
+      | some _, _ => false
+    | none => false
+  | _ => false
 end SpecEnv
